@@ -32,9 +32,12 @@ pub mod io {
     pub trait Write {
         spec fn bytes(&self) -> Seq<u8>;
         spec fn failed(&self) -> bool;
+        // ghost: whatever else identifies this sink (e.g. a wrapper's own bookkeeping); writing never changes it
+        spec fn tag(&self) -> int;
         // write_all: Ok => exactly buf appended; Err => the sink failed (some prefix may have been appended)
         fn write_all(&mut self, buf: &[u8]) -> (r: Result<()>)
             ensures
+                final(self).tag() == old(self).tag(),
                 r.is_ok() ==> final(self).bytes() == old(self).bytes() + buf@ && final(self).failed() == old(self).failed(),
                 r.is_err() ==> final(self).failed()
                     && exists|k: int| 0 <= k <= buf@.len() && final(self).bytes() == old(self).bytes() + #[trigger] buf@.subrange(0, k);
